@@ -406,6 +406,8 @@ func prelude(logic string) []string {
 		"(assert (forall ((s Str) (t Str) (a Int) (b Int)) (! (=> (and (<= 0 a) (<= a b) (<= b (slen s))) (= (ssub (scat s t) a b) (ssub s a b))) :pattern ((ssub (scat s t) a b)))))",
 		"(assert (forall ((s Str) (t Str) (a Int) (b Int)) (! (=> (and (<= (slen s) a) (<= a b) (<= b (+ (slen s) (slen t)))) (= (ssub (scat s t) a b) (ssub t (- a (slen s)) (- b (slen s))))) :pattern ((ssub (scat s t) a b)))))",
 		"(assert (forall ((s Str) (a Int) (b Int) (c Int) (d Int)) (! (=> (and (<= 0 a) (<= a b) (<= b (slen s)) (<= 0 c) (<= c d) (<= d (- b a))) (= (ssub (ssub s a b) c d) (ssub s (+ a c) (+ a d)))) :pattern ((ssub (ssub s a b) c d)))))",
+		// left cancellation: p++a == p++b ==> a == b
+		"(assert (forall ((p Str) (a Str) (b Str)) (! (=> (= (scat p a) (scat p b)) (= a b)) :pattern ((scat p a) (scat p b)))))",
 		// bytes -> string
 		"(assert (forall ((a (Array Int Int)) (o Int) (n Int)) (! (=> (>= n 0) (= (slen (sfrom a o n)) n)) :pattern ((sfrom a o n)))))",
 		"(assert (forall ((a (Array Int Int)) (o Int) (n Int) (i Int)) (! (=> (and (<= 0 i) (< i n) (<= 0 (select a (+ o i))) (< (select a (+ o i)) 256)) (= (sat (sfrom a o n) i) (select a (+ o i)))) :pattern ((sat (sfrom a o n) i)))))",
